@@ -264,6 +264,10 @@ def mk_index(v, idx, an=None):
         if t == 'constref':
             v = v[1]
             continue
+        if t == 'ite':
+            return mk_ite(v[1], tuple((val, mk_index(x, idx, an)) for val, x in v[2]))
+        if t == 'var' and v in VAR_DEFS:
+            return mk_index(VAR_DEFS[v], idx, an)
         return ('index', v, idx)
 
 
